@@ -40,6 +40,7 @@ package baggage
 //@   modifies
 //@   loop#1 invariant forall i in 0 .. $off : s[i] < 128
 
+// (percent-decoding is url.PathUnescape's - '+' stays '+'; the call is anchored below, the decoding itself is the library's)
 // parsePropertyInternal: for EVERY byte string, all indexing and slicing stays in range (the two rune loops advance a byte
 // index once per rune, which is right only because every accepted rune is one byte long - invariant keyEnd == keyStart + $off);
 // an accepted property has a non-empty key made of key characters and, if present, a valid UTF-8 value
@@ -49,6 +50,7 @@ package baggage
 //@   ensures ok && p.hasValue ==> utf8valid(p.value)
 //@   ensures !ok ==> p.key == "" && p.value == "" && !p.hasValue
 //@   modifies
+//@   assert@call PathUnescape#1 : $arg0 == s[valueStart:valueEnd]
 //@   loop#1 invariant keyStart == index && 0 <= keyStart && keyStart <= len(s) && keyEnd == keyStart + $off && keyEnd <= len(s)
 //@   loop#1 invariant forall i in keyStart .. keyEnd : s[i] < 128
 //@   loop#2 invariant 0 <= valueStart && valueStart <= len(s) && valueEnd == valueStart + $off && valueEnd <= len(s) && keyStart < keyEnd && keyEnd <= len(s) && 0 <= keyStart
@@ -75,6 +77,7 @@ package baggage
 // parseMember: a member longer than 4096 bytes is rejected; an accepted one has a W3C key and a valid UTF-8 value
 //@ func parseMember(member string) (m Member, err error)
 //@   overflow assumed
+//@   assert@call PathUnescape#1 : len($arg0) <= len(member)
 //@   ensures len(member) > 4096 ==> err != nil
 //@   ensures err == nil ==> m.hasData && len(m.key) > 0 && (forall i in 0 .. len(m.key) : m.key[i] < 128) && utf8valid(m.value)
 //@   ensures err != nil ==> !m.hasData
